@@ -39,10 +39,11 @@ type State struct {
 	heaps map[string]*Term
 	// ghost bookkeeping
 	iterSnap *State // state at head of current loop iteration (for iter())
+	epoch    int    // 0: heaps not yet materialised equal their entry value; >0: unknown since the havoc-all with this number
 }
 
 func (s *State) clone() *State {
-	n := &State{pc: s.pc, vars: make(map[types.Object]Val, len(s.vars)), heaps: make(map[string]*Term, len(s.heaps)), iterSnap: s.iterSnap}
+	n := &State{pc: s.pc, vars: make(map[types.Object]Val, len(s.vars)), heaps: make(map[string]*Term, len(s.heaps)), iterSnap: s.iterSnap, epoch: s.epoch}
 	for k, v := range s.vars {
 		n.vars[k] = v
 	}
@@ -210,9 +211,15 @@ func (vc *VC) heap(st *State, name, sortS string) *Term {
 	if h, ok := st.heaps[name]; ok {
 		return h
 	}
+	vc.heapSorts[name] = sortS
+	if st.epoch > 0 && !strings.HasPrefix(name, "$Trace") {
+		// everything was havoc'd since entry: a heap first touched now is unknown, not its entry value
+		h := Var(fmt.Sprintf("%s@e%d", name, st.epoch), sortS)
+		st.heaps[name] = h
+		return h
+	}
 	// first use: the heap existed at entry with unknown content; register in entry + all
 	h := Var(name+"@0", sortS)
-	vc.heapSorts[name] = sortS
 	st.heaps[name] = h
 	if vc.entry != nil {
 		if _, ok := vc.entry.heaps[name]; !ok {
@@ -399,16 +406,28 @@ func (vc *VC) join(a, b *State) *State {
 	for k, ha := range a.heaps {
 		hb, ok := b.heaps[k]
 		if !ok {
-			hb = vc.entryHeap(k)
+			hb = vc.implicitHeap(b, k)
 		}
 		n.heaps[k] = Ite(c, ha, hb)
 	}
 	for k, hb := range b.heaps {
 		if _, ok := a.heaps[k]; !ok {
-			n.heaps[k] = Ite(c, vc.entryHeap(k), hb)
+			n.heaps[k] = Ite(c, vc.implicitHeap(a, k), hb)
 		}
 	}
+	n.epoch = a.epoch
+	if a.epoch != b.epoch {
+		epochCounter++
+		n.epoch = epochCounter
+	}
 	return n
+}
+
+func (vc *VC) implicitHeap(st *State, name string) *Term {
+	if st.epoch > 0 && !strings.HasPrefix(name, "$Trace") {
+		return Var(fmt.Sprintf("%s@e%d", name, st.epoch), vc.heapSorts[name])
+	}
+	return vc.entryHeap(name)
 }
 
 func (vc *VC) entryHeap(name string) *Term {
